@@ -427,3 +427,161 @@ def cursor_rule(ctx, prog, an, rule, decoder_path, R=None):
                ("a decode failure is swallowed at repetition depth %d in %s while the returned remainder is assigned at depth(s) %s: a record that fails mid-way loses the bytes already consumed (record loop depth %d)"
                 % (d, b.path, sorted(set(depths.get(x[1], 0) for x in deep)) or [d], base)),
                site=b.line(blk))
+
+
+# ---------------------------------------------------------------------------
+# record-loop stop criterion (R5.7)
+
+def _len_of(e):
+    e = peel(e, widen=True)
+    if e[0] == "call" and e[2] is not None and e[2].npath.endswith("<impl [T]>::len") and e[3]:
+        return peel(e[3][0])
+    return None
+
+
+def _mentions_consumption(e):
+    """Does e depend on what the previous record consumed (a difference of slice lengths / the per-record fold)?"""
+    def hit(n):
+        if n[0] == "call" and n[2] is not None:
+            nn = n[2].npath
+            if nn.endswith("::saturating_sub") or nn.endswith("::wrapping_sub") or nn.endswith("::checked_sub"):
+                return any(_len_of(a) is not None for a in n[3])
+            if n[2].nsyn in ("std::iter::Iterator::try_fold",):
+                return True
+        if n[0] == "binop" and n[1].replace("WithOverflow", "") == "Sub":
+            return _len_of(n[2]) is not None or _len_of(n[3]) is not None
+        return False
+    return bool(find(e, hit))
+
+
+def _template_min_sum(an, prog, e, depth=0):
+    """If e is a sum over the template's fields of a per-field contribution (fold with an additive closure, or
+    map + sum), return (closure body, accumulate call block) so that the contribution can be evaluated; else None."""
+    e = peel(e, widen=True)
+    if e[0] != "call" or e[2] is None or depth > 3:
+        return None
+    if e[2].nsyn == "std::iter::Iterator::fold" and len(e[3]) == 3:
+        init = const_eval(e[3][1])
+        clo = peel(e[3][2], identity=(), casts=False)
+        if init == {0} and clo[0] == "closure" and clo[1] in prog.bodies:
+            return prog.bodies[clo[1]]
+    if e[2].nsyn == "std::iter::Iterator::sum" and e[3]:
+        it = peel(e[3][0], identity=())
+        if it[0] == "call" and it[2] is not None and it[2].nsyn == "std::iter::Iterator::map" and len(it[3]) == 2:
+            clo = peel(it[3][1], identity=(), casts=False)
+            if clo[0] == "closure" and clo[1] in prog.bodies:
+                return prog.bodies[clo[1]]
+    return None
+
+
+def _contribution_table(an, prog, cb):
+    """Evaluate the per-field contribution of closure body cb as a function of `field_length` on a set of lengths that
+    covers every constant the closure compares against (±1) and the extremes: {L: contribution or None}.
+    The contribution is the non-accumulator operand of the closure's additive call, or its returned value."""
+    # locals that hold <field>.field_length
+    fl_locals = []
+    sl = an.slicer(cb)
+    for l in range(1, len(cb.locals)):
+        try:
+            x = peel(an.local(cb, l), widen=False)
+        except RecursionError:
+            continue
+        if x[0] == "field" and x[2] == "field_length":
+            fl_locals.append(l)
+    if not fl_locals:
+        return None
+    consts = set([0, 1, 2, 255, 256, 65534, 65535])
+    for blk in range(cb.nblocks):
+        t = cb.blocks[blk]["term"]
+        if t["k"] == "switch":
+            for v, _ in t["targets"]:
+                if isinstance(v, int):
+                    consts |= {v - 1, v, v + 1}
+        for st in cb.blocks[blk]["stmts"]:
+            if st["k"] == "assign" and st["rv"]["k"] == "binop":
+                for o in (st["rv"]["a"], st["rv"]["b"]):
+                    if o.get("k") == "const" and isinstance(o.get("val"), int):
+                        consts |= {o["val"] - 1, o["val"], o["val"] + 1}
+    consts = sorted(c for c in consts if 0 <= c <= 65535)
+    # the additive call (acc.saturating_add(x) / acc + x) or the return value for map closures
+    add_sites = []
+    for blk, t, c in cb.calls():
+        if c is not None and re.search(r"::(saturating_add|wrapping_add|checked_add)$", c.npath) and len(t["args"]) == 2:
+            add_sites.append((blk, t["args"][1]))
+    table = {}
+    for L in consts:
+        seen = []
+
+        def obs(bk, env, L=L):
+            for (ab, op) in add_sites:
+                if bk == ab:
+                    if op.get("k") == "const" and "val" in op:
+                        seen.append(op["val"])
+                    elif op.get("k") in ("copy", "move") and not op["place"].get("p"):
+                        seen.append(env.get(op["place"]["l"]))
+                    else:
+                        seen.append(None)
+            if not add_sites and cb.term(bk)["k"] == "return":
+                seen.append(env.get(0))
+        cb.reachable_cp(0, assume={l: L for l in fl_locals}, observe=obs)
+        vals = set(seen)
+        table[L] = next(iter(vals)) if len(vals) == 1 else None
+    return table
+
+
+def record_stop_rule(ctx, prog, an, rule, decoder_path, label):
+    """The data-record loop may hand the rest of the set over as padding only when what is left cannot hold a record:
+    its length guard must compare the remainder with a LOWER BOUND of every record's wire size under the template,
+    M = sum over the template's fields of (1 for a variable-length field (65535), else its declared length) — or with
+    min(M, anything).  A guard that compares with the size of the previous record drops a complete variable-length
+    record that is shorter than its predecessor."""
+    lay = Layouts(prog, an)
+    F = records_parser_of(lay, decoder_path)
+    b = prog.body(F) if F else None
+    if not ctx.anchor(rule, decoder_path + " → records parser", b):
+        return
+    loops = [set(c) for c in b.sccs()]
+    guards = []
+    for blk in sorted(b.live_blocks()):
+        if not any(blk in c for c in loops):
+            continue
+        t = b.term(blk)
+        if t["k"] != "switch":
+            continue
+        e, neg = strip_not(an.op(b, t["op"]))
+        e = peel(e)
+        if e[0] != "binop" or e[1] not in ("Lt", "Le", "Gt", "Ge"):
+            continue
+        a, c = e[2], e[3]
+        if _len_of(a) is not None and _len_of(c) is None:
+            guards.append((blk, c, e[1]))
+        elif _len_of(c) is not None and _len_of(a) is None:
+            guards.append((blk, a, {"Lt": "Gt", "Le": "Ge", "Gt": "Lt", "Ge": "Le"}[e[1]]))
+    if not guards:
+        ctx.ob(rule, b.path, "stop-criterion:%s" % label, True, "no length guard in the record loop: the loop ends only by a failed / empty record (record-boundary atomicity is R9.4 / R10.6)")
+        return
+    for blk, X, op in guards:
+        Xe = an.expand(X)
+        core = peel(Xe, widen=True)
+        bound = core
+        via_min = False
+        if core[0] == "call" and core[2] is not None and re.search(r"(::min|Ord::min)$", core[2].nsyn + "|" + core[2].npath.split("|")[0]) and len(core[3]) == 2:
+            cands = [peel(x, widen=True) for x in core[3]]
+            tm = [x for x in cands if _template_min_sum(an, prog, x) is not None]
+            if tm:
+                bound = tm[0]
+                via_min = True
+        cb = _template_min_sum(an, prog, bound)
+        if cb is None:
+            dep = _mentions_consumption(Xe)
+            ctx.ob(rule, b.path, "stop-criterion:%s" % label, False,
+                   "the record loop stops when the remainder is shorter than %s — %s, not a lower bound of the record size under the template: a complete variable-length record shorter than its predecessor is reported as padding"
+                   % (canon(core)[:140], "the size of the previous record" if dep else "an unrecognised quantity"), site=b.line(blk))
+            continue
+        tab = _contribution_table(an, prog, cb)
+        okc = tab is not None and all((v == (1 if L == 65535 else L)) for L, v in tab.items())
+        bad = {L: v for L, v in (tab or {}).items() if v != (1 if L == 65535 else L)}
+        ctx.ob(rule, b.path, "stop-criterion:%s" % label, bool(okc),
+               "stop when remainder < %sΣ contribution(field_length) over the template's fields; contribution evaluated on %d lengths covering every constant the closure tests: %s"
+               % ("min(.., " if via_min else "", len(tab or {}), "L for fixed lengths and 1 for 65535 — the smallest record the template allows" if okc else "differs from (L | 1 for 65535) at %s" % dict(list(bad.items())[:5])),
+               site=b.line(blk))
